@@ -13,6 +13,7 @@ mod tw;
 mod util;
 mod zig;
 mod quant;
+mod rej;
 
 fn main() {
     util::install_quiet_panic_hook();
@@ -59,6 +60,7 @@ fn main() {
         "zig-export" => zig::export(rest),
         "zig-drive" => zig::drive(rest),
         "quant-drive" => quant::drive(rest),
+        "rej-drive" => rej::drive(rest),
         "tree-drive-floats" => tree::drive_floats(rest),
         _ => { eprintln!("unknown subcommand {:?}", cmd); 2 }
     };
